@@ -78,8 +78,9 @@ def bfs(model, name, tier, jobs, max_depth, max_faults, cap_s=None, cap_states=N
     _MODEL[name] = model
     states = {}          # canon -> dict(id, depth, faults, history)
     frontier = []
+    ikey = getattr(model, "info_key", lambda info: "")      # history-dependent facts the oracle reads belong to the state identity
     for snap, info in model.initial():
-        c = canon(snap)
+        c = canon(snap) + ikey(info)
         if c in states:
             continue
         states[c] = dict(id=len(states), depth=0, faults=0, history=[])
@@ -97,6 +98,7 @@ def bfs(model, name, tier, jobs, max_depth, max_faults, cap_s=None, cap_states=N
                 tasks.append((name, c, snap, info, ev, budget))
         if not tasks:
             break
+        model.depth_now = depth          # visible to the forked workers of this level
         if os.environ.get("VERIF_SERIAL") or jobs <= 1:
             results = [_expand(t) for t in tasks]
         else:
@@ -109,12 +111,15 @@ def bfs(model, name, tier, jobs, max_depth, max_faults, cap_s=None, cap_states=N
                 cr.transitions += 1
                 cr.executions += 1
                 cr.evaluations += 1
-                tok = (tr["event"].get("name"), tr["crash"] is not None, str(tr["obs"].get("status")), tr["obs"].get("exc"))
+                tok = (tr["event"].get("name"), tr["crash"] is not None and tr.get("fault", "kill"), str(tr["obs"].get("status")), (tr["obs"].get("exc") or "")[:60])
                 outcomes[tok] = outcomes.get(tok, 0) + 1
-                hist = pre["history"] + [dict(tr["event"], crash=tr["crash"])]
+                hev = dict(tr["event"], crash=tr["crash"])
+                if tr.get("fault") not in (None, "kill"):
+                    hev["fault"] = tr["fault"]
+                hist = pre["history"] + [hev]
                 for key, msg in tr["violations"]:
                     cr.viol(key, msg, {"history": hist, "model": name}, idx=cr.transitions)
-                c2 = tr["canon"]
+                c2 = tr["canon"] + ikey(tr["info"])
                 if c2 not in states:
                     states[c2] = dict(id=len(states), depth=depth + 1, faults=pre["faults"] + (1 if tr["crash"] is not None else 0), history=hist)
                     if tr["snap"] is not None:
@@ -161,13 +166,16 @@ def expand_with_faults(model, root, snap, info, event, fault_budget):
     K = w.count
     seen_local = set()
 
-    def record(crash, obs, log):
+    def record(crash, obs, log, fault=None):
         snap2 = snapshot(root)
         c2 = canon(snap2)
-        viol, info2 = model.judge(root, snap, info, event, crash, obs, log)
+        if fault in (None, "kill"):
+            viol, info2 = model.judge(root, snap, info, event, crash, obs, log)
+        else:
+            viol, info2 = model.judge(root, snap, info, event, crash, obs, log, fault=fault)
         first = c2 not in seen_local
         seen_local.add(c2)
-        out.append(dict(event=event, crash=crash, obs=obs, canon=c2, snap=snap2 if first else None, info=info2, violations=viol, points=K))
+        out.append(dict(event=event, crash=crash, fault=fault, obs=obs, canon=c2, snap=snap2 if first else None, info=info2, violations=viol, points=K))
 
     record(None, obs, w.log)
     if fault_budget >= 1:
@@ -176,5 +184,13 @@ def expand_with_faults(model, root, snap, info, event, fault_budget):
             obs_k, wk = model.run(root, event, k)
             if not wk.crashed:
                 raise HarnessError("crash point %d of %d was never reached when replaying %r: the run is not deterministic" % (k, K, event))
-            record(k, obs_k, w.log)
+            record(k, obs_k, w.log, "kill")
+        if "error" in getattr(model, "fault_kinds", ("kill",)):
+            # the same points, but the operation FAILS (an OSError the library's own handlers see) instead of the process dying
+            for k in range(K):
+                restore(root, snap)
+                obs_k, wk = model.run(root, event, k, kind="error")
+                if not wk.fired:
+                    raise HarnessError("fault point %d of %d was never reached when replaying %r: the run is not deterministic" % (k, K, event))
+                record(k, obs_k, w.log, "error")
     return out
